@@ -115,3 +115,12 @@ Proof. reflexivity. Qed.
 From UsimGen Require SourcePins Pin_C10.
 Theorem C10_modelled_source_unchanged : forallb SourcePins.pin_ok Pin_C10.pins = true.
 Proof. exact Pin_C10.src_unchanged. Qed.
+
+(** ** link to the whole-program machine (QueueLink.v): exactly-once delivery transferred to the machine's queue objects *)
+From Usim Require QueueLink.
+Theorem C10_machine_exactly_once :
+  forall o q wkm wkn s, QueueLink.qlink o q wkm wkn s -> QueueProto.qreachable s ->
+    List.map BinInt.Z.of_nat (QueueProto.accepted s) =
+    (List.map BinInt.Z.of_nat (List.map snd (QueueProto.delivered s)) ++ Machine.q_buf (Lib.get_queue o q))%list.
+Proof. exact QueueLink.machine_exactly_once. Qed.
+Print Assumptions C10_machine_exactly_once.
